@@ -4,7 +4,11 @@ prop("C01", True, "A",
      "Every history of the bounded space is executed on a fresh real tracker (inside the shuttle runtime under the default schedule); each call is checked for one record per detection in order, echoed box / custom id / scene, scene epoch, distinct ids within the call, never-reissued ids, length bookkeeping, and agreement of the record with the stored track.",
      "Trusted: the monitor's bookkeeping model (engine/src/props/c01.rs). Sequential use only (schedules: C05/C06). Detection lists off the menu and deeper histories are not covered.",
      "7/C01")
-prop("C02", False, "A+C", "", "", NB, "7/C02")
+prop("C02", True, "A+C",
+     '(a) exhaustive enumeration of complete weight-matrix grids (<= 3x3 over 7 values straddling the threshold, all arrival orders for <= 2x2, permutation / greedy-trap families to 8x8) on the real SortVoting against an exact DP optimum; (b) exhaustive enumeration of all relative-motion words for approaching / crossing / jumping objects on the real trackers with gate, weights and the optimum re-derived in f64 from the observable store before every call',
+     "Every matrix of the finite grids and every word of the bounded motion alphabet is executed on the implementation; the assignment's total must equal the brute-force optimum in the implementation's own micro-units (a) / within a 1e-3 margin (b), and no ungated, expired or out-of-reach pair may be continued. The number of calls where row-wise greedy differs from the optimum is reported as vacuity guard.",
+     "Trusted: reference clipper, own Mahalanobis, brute-force assignment (engine/src/props/assoc.rs, hung.rs). Matrices above 3x3 only along enumerated families (the statement's 'randomly up to 8x8' is replaced by them). Near-ties are accepted either way and counted.",
+     "7/C02")
 prop("C03", True, "A",
      "exhaustive enumeration of all operation histories (predict incl. empty, skip, wasted, clear_wasted, set_auto_waste; idle / epochs / shard statistics / both store dumps observed after every step) up to depth 4 (5 thorough) on the real trackers against a reference model of track places, run in lock-step on three instances with collection period 100 / 0 / 1 (differential oracle)",
      "Every history of the bounded space is executed on three real tracker instances; each is compared with the model (continuation of unexpired tracks only, exact wasted set delivered once, idle set, epochs, conservation through the shard statistics, every held track in exactly one store) and the three transcripts must be identical.",
@@ -51,7 +55,11 @@ prop("C11", True, "A",
      'Trusted: the reference model and the harness callbacks (mutate-then-fail, so a missing rollback is visible). Metric state is read through a muted probe on a clone.',
      "7/C11")
 prop("C12", False, "A", "", "", NB, "7/C12")
-prop("C13", False, "A", "", "", NB, "7/C13")
+prop("C13", True, "A",
+     'exhaustive enumeration of all quality words up to length 6 (8 thorough) and all periodic words of length <= 4 unrolled to 60 (300) updates on the real VisualSort / BatchVisualSort (galleries) and all four trackers (histories), for visual_max_observations 1..4 (1..8) x history lengths, with the gallery and the histories read from the live store after every update',
+     'Every word of the bounded alphabet is executed; after each update: entries and stored features <= max and equal to the reported count, newcomer stored iff collectable, at most one eviction and only of a lowest-quality feature and only at capacity, nothing else changes, histories = last min(len, H) entries in arrival order, record echoes the last entries, wasted conversion echoes the histories.',
+     'Trusted: the oracle in engine/src/props/c13.rs. Eviction when the gallery is full and the newcomer carries no feature is accepted (the statement does not forbid it). One continuing object plus one distractor.',
+     "7/C13")
 prop("C14", True, "C",
      'exhaustive enumeration of all box lists up to n=4 (5 thorough) over a 9-box menu x score patterns x thresholds, plus chain/ladder/grid/fan families for every k<=40, on the real nms(); oracle straight from the statement with own coverage computation',
      'All lists of the finite product are executed and each clause of the statement (subset by reference identity, rank order, top kept, independence, justification of every drop, idempotence) is checked.',
